@@ -644,8 +644,18 @@ impl FileSystem for Vfs {
     fn id_remap_with_nodeid(&self, ctx: &mut Context, nodeid: Self::Inode) -> Result<()> {
         // Use the per-mount mapping identified by the fs_idx encoded in
         // nodeid, falling back to the global mapping for pseudo-fs
-        // operations (fs_idx == 0).
-        self.remap_ctx_ids(ctx, self.get_effective_id_mapping(nodeid.fs_idx()))
+        // operations (fs_idx == 0). The pseudo root is served by the
+        // filesystem mounted at "/", if any, so that mount's mapping applies.
+        let fs_idx = if nodeid.is_pseudo_fs() && nodeid.ino() == ROOT_ID {
+            self.mountpoints
+                .load()
+                .get(&ROOT_ID)
+                .map(|mnt| mnt.fs_idx)
+                .unwrap_or(VFS_PSEUDO_FS_IDX)
+        } else {
+            nodeid.fs_idx()
+        };
+        self.remap_ctx_ids(ctx, self.get_effective_id_mapping(fs_idx))
     }
 
     #[cfg(any(feature = "vhost-user-fs", feature = "virtiofs"))]
